@@ -46,7 +46,7 @@ type Fault struct {
 // TreeScript describes one run of the tree world.
 type TreeScript struct {
 	Prop    string  `json:"prop"`
-	Store   string  `json:"store"`             // mem | lvlmem | lvlp | p
+	Store   string  `json:"store"`             // mem | lvlmem | lvlp | p | lvlpp
 	Cache   string  `json:"cache"`             // own | shared
 	Observe string  `json:"observe,omitempty"` // "" = harness reads through the trie under test; "fresh" = through throw-away trie objects
 	Ver     int64   `json:"ver"`
@@ -264,7 +264,7 @@ func newWorld(s *TreeScript) *world {
 	worldSeq++
 	w.path = fmt.Sprintf("sim://tree/%d", worldSeq)
 	root := &inst{id: 0, ver: s.Ver, model: map[string]string{}, open: true}
-	needDisk := s.Store == "lvlp" || s.Store == "p"
+	needDisk := s.Store == "lvlp" || s.Store == "p" || s.Store == "lvlpp"
 	if needDisk {
 		w.disk = grocksdb.NewDisk()
 		grocksdb.SimSetDisk(w.path, w.disk)
@@ -286,6 +286,8 @@ func newWorld(s *TreeScript) *world {
 		root.db = util.NewLevelNodeDB(root.mem, w.pndb, false)
 	case "p":
 		root.db = w.pndb
+	case "lvlpp": // layered store whose current level is the persistent store itself (what a rebase after a save produces)
+		root.db = util.NewLevelNodeDB(w.pndb, w.pndb, false)
 	default:
 		panic("bad store " + s.Store)
 	}
